@@ -131,6 +131,21 @@ pub use request::{ReadWrite, Request};
 pub use response::{Response, ResponseBox};
 pub use test::TestRequest;
 
+/// Entry points for the external verification harness (only with `--cfg tiny_http_verif`).
+#[cfg(tiny_http_verif)]
+pub mod verif {
+    pub use crate::client::ClientConnection;
+    pub use crate::util::{MessagesQueue, TaskPool};
+    pub use tiny_http_verif_rt::mem::{MemConn, MemListener};
+
+    /// The real per-connection request iterator over an in-memory connection.
+    pub fn client_connection(conn: MemConn) -> ClientConnection {
+        let (read, write) =
+            crate::util::RefinedTcpStream::new(crate::connection::Connection::Mem(conn));
+        ClientConnection::new(write, read)
+    }
+}
+
 mod client;
 mod common;
 mod connection;
@@ -156,6 +171,10 @@ pub struct Server {
 
     // result of TcpListener::local_addr()
     listening_addr: ListenAddr,
+
+    // in-memory listener of the verification harness, closed when the server is dropped
+    #[cfg(tiny_http_verif)]
+    verif_mem_listener: Option<tiny_http_verif_rt::mem::MemListener>,
 }
 
 enum Message {
@@ -264,6 +283,8 @@ impl Server {
         ssl_config: Option<SslConfig>,
     ) -> Result<Server, Box<dyn Error + Send + Sync + 'static>> {
         let listener = listener.into();
+        #[cfg(tiny_http_verif)]
+        let verif_mem_listener = listener.verif_mem();
         // building the "close" variable
         let close_trigger = Arc::new(AtomicBool::new(false));
 
@@ -401,6 +422,8 @@ impl Server {
             messages,
             close: close_trigger,
             listening_addr: local_addr,
+            #[cfg(tiny_http_verif)]
+            verif_mem_listener,
         })
     }
 
@@ -469,6 +492,12 @@ impl Iterator for IncomingRequests<'_> {
 impl Drop for Server {
     fn drop(&mut self) {
         self.close.store(true, Relaxed);
+        // an in-memory listener is woken by closing it; there is no socket to connect to
+        #[cfg(tiny_http_verif)]
+        if let Some(l) = self.verif_mem_listener.take() {
+            l.close();
+            return;
+        }
         // Connect briefly to ourselves to unblock the accept thread
         let maybe_stream = match &self.listening_addr {
             ListenAddr::IP(addr) => TcpStream::connect(addr).map(Connection::from),
